@@ -105,6 +105,7 @@ class Discharger(object):
         self.cut_rep = {}
         self.stats = {'queries': 0, 'solver_s': 0.0, 'pair_queries': 0, 'syntactic': 0, 'unknown': 0}
         self.smt2 = []
+        self.witness = None
         self.cut_merges = []
         self.pair_solver = z3.Solver()
         self.pair_solver.set('timeout', 10000)
@@ -322,7 +323,10 @@ class Discharger(object):
                 if self.int_varset(cv[y][1]) != vx and tried >= 3:
                     break
                 tried += 1
-                r, _ = self.prove_int_equal(pc, ivx, cv[y][1])
+                r, m_ = self.prove_int_equal(pc, ivx, cv[y][1])
+                if r == 'sat' and m_ is not None and len(cands) == 1:
+                    # the only possible partner differs for some input: that input is a candidate counterexample
+                    self.witness = m_
                 if r == 'unsat':
                     self.merge_cuts(pc, x, y)
                     only_b.remove(y)
@@ -589,9 +593,14 @@ class Discharger(object):
             return ('unsat' if ok else 'sat'), None
         ta, tb = to_real(fc, a), to_real(fc, b)
         pc = obl.pc
+        self.witness = None
         self.unify_cuts(pc, ta, tb)
         ta, tb = self.subst_cuts(ta), self.subst_cuts(tb)
-        return self.close_terms(pc, ta, tb, Fraction(tol))
+        v, m = self.close_terms(pc, ta, tb, Fraction(tol))
+        if v in ('sat-abstract', 'unknown') and self.witness is not None:
+            # the tail comparison is open, but two counts that must be equal differ for a concrete input: replay that one
+            return 'sat', self.witness
+        return v, m
 
     def uf_axioms(self, asserts):
         """erfc: range [0,2], erfc(x) <= 1 for x >= 0, erfc(-x) = 2 - erfc(x), decreasing; erf: odd, range [-1,1];
